@@ -208,6 +208,7 @@ func TestProgramsF47(t *testing.T) {
 	g := genCase([]string{"f47"}, prog.GenConfig{MaxOps: 14})
 	rec.Check(t, "prog", ev.N(20000, 400000), func(rt *rapid.T) {
 		c := g.Draw(rt, "case")
+		rec.Begin("prog", c)
 		rec.Report(rt, "prog", c, run(c, rec))
 	})
 }
@@ -222,6 +223,7 @@ func TestProgramsCurves(t *testing.T) {
 	g := genCase(fields, prog.GenConfig{MaxOps: 10, Weights: map[string]int{"Cmp": 1, "AssertLE": 1}})
 	rec.Check(t, "prog", ev.N(1500, 60000), func(rt *rapid.T) {
 		c := g.Draw(rt, "case")
+		rec.Begin("prog", c)
 		rec.Report(rt, "prog", c, run(c, rec))
 	})
 }
